@@ -38,6 +38,8 @@ def run(C, R):
         E = C.engine(cfg)
         CG = C.cg(cfg)
         R.configs.append(cfg)
+        from common import constructor_state
+        constructor_state(R, C.engine(cfg), C.facts(cfg), STATE, {'is_locked': ('const', 0), 'is_fair': ('param', 'is_fair'), 'waiters': 'empty-queue'}, 'C02.R0')
         from common import wrapper_discipline
         R.floor('C02.W wrapper-paths[%s]' % cfg, wrapper_discipline(C, R, cfg, ['sync::mutex::MutexState'], 'C02.W'), 2)
         F.adt(STATE)
